@@ -158,6 +158,27 @@ class LeanSide:
                 out.append((m.group(1), m.group(2).split()))
         return p.returncode == 0 and "AUDIT-COUNT" in p.stdout, out, p.stdout + p.stderr
 
+    def rv_closure(self, modules):
+        """the RV.* modules reachable from `modules` through imports (the generated constants included)"""
+        seen, todo = [], list(modules)
+        while todo:
+            m = todo.pop()
+            if m in seen:
+                continue
+            f = LEAN / (m.replace(".", "/") + ".lean")
+            if not f.exists():
+                continue
+            seen.append(m)
+            for line in f.read_text().splitlines():
+                mm = re.match(r"\s*import\s+(RV(?:\.\w+)*)\s*$", line)
+                if mm:
+                    todo.append(mm.group(1))
+        return sorted(seen)
+
+    def leanchecker(self, modules, timeout=3000):
+        p = subprocess.run(["lake", "env", "leanchecker", *modules], cwd=LEAN, capture_output=True, text=True, timeout=timeout)
+        return p.returncode == 0, p.stdout + p.stderr
+
     def grep_forbidden(self, files):
         hits = []
         for f in files:
@@ -303,7 +324,15 @@ class Run:
                     self.broken.append(("axioms", name, " ".join(bad)))
                 else:
                     self.discharged.append(name)
-        files = [LEAN / (m.replace(".", "/") + ".lean") for m in self.modules] + [LEAN / f for f in self.model_files]
+        # every RV module the theorem modules depend on (models, proof libraries): scanned for forbidden tokens too,
+        # and in the thorough tier re-checked from the compiled .olean files by the toolchain's independent checker
+        deps = self.lean.rv_closure(self.modules)
+        files = [LEAN / (m.replace(".", "/") + ".lean") for m in deps] + [LEAN / f for f in self.model_files]
+        if self.tier == "thorough" and ok:
+            okc, outc = self.lean.leanchecker(deps)
+            self.notes.append(f"leanchecker re-checked {len(deps)} modules: {'ok' if okc else 'FAILED'}")
+            if not okc:
+                self.broken.append(("leanchecker", ",".join(self.modules), outc[-2000:]))
         hits = self.lean.grep_forbidden([f for f in files if f.exists()])
         for h in hits:
             self.broken.append(("forbidden-token", h, ""))
